@@ -86,6 +86,8 @@ def main():
     ap.add_argument('--only', default='')
     ap.add_argument('--patch-dir', default=None, help='also judge <dir>/<id>/patch.diff mutants')
     ap.add_argument('--no-table', action='store_true')
+    ap.add_argument('--legit-dir', default=None,
+                    help='<dir>/<id>/patch.diff: legitimate changes, every check must stay clean on them')
     args = ap.parse_args()
     from selftest.mutants import MUTANTS
     only = set(filter(None, args.only.split(',')))
@@ -133,6 +135,25 @@ def main():
                                                              r.get('wall_s', 0),
                                                              (r.get('replay') or {}).get('violation', '')))
             sys.stdout.flush()
+    if args.legit_dir:
+        base = os.path.join(ROOT, args.legit_dir) if not os.path.isabs(args.legit_dir) else args.legit_dir
+        for mid in sorted(os.listdir(base)):
+            patch = os.path.join(base, mid, 'patch.diff')
+            if not os.path.exists(patch) or (only and mid not in only):
+                continue
+            for prop in ('C09', 'C14'):
+                d = scratch_copy()
+                try:
+                    subprocess.run(['patch', '-p1', '-s', '-f', '-d', d, '-i', patch], capture_output=True)
+                    r = judge_one(mid + ':' + prop, prop, d, args.budget, None, 'clean')
+                except Exception as e:  # noqa: BLE001
+                    r = {'id': mid + ':' + prop, 'ok': False, 'verdict': 'setup-error', 'error': repr(e)}
+                finally:
+                    shutil.rmtree(d, ignore_errors=True)
+                results.append(r)
+                print('%-34s %-8s expect=clean   %s %5.1fs' % (r['id'], r.get('verdict'),
+                                                              'OK ' if r['ok'] else 'BAD', r.get('wall_s', 0)))
+                sys.stdout.flush()
     bad = [r['id'] for r in results if not r['ok']]
     out = {'budget_s': args.budget, 'results': results, 'bad': bad}
     if not only:
